@@ -68,13 +68,14 @@ prop(
 prop(
     "C04",
     level="exploration",
-    technique="shadow-equity reference monitor fed by pre-state observations and the executed swap event; insurance-drain ledger on trader actions",
+    technique="shadow-equity reference monitor fed by pre-state observations and the executed swap event; per-operation margin/funding ledger; lifetime cash-flow ledger per position; insurance-drain ledger on trader actions",
     design_ref="DESIGN.md §4 C04",
     rule="evaluations = successful ClosePosition calls (whole and partial) plus trader actions that lowered the insurance fund. R1 paid-to-trader == margin + pnl - funding owed (pnl from the quote amount in THIS transaction's swap event vs open notional, sign by direction), +-1, and the position is gone; "
          "R2/R3 a (partial) close that succeeds with equity < -1 is a violation; R4 net fall of the insurance fund in Open/Close/Deposit/Withdraw <= rise of State.bad_debt. "
          "ledger: the margin a later close pays out is only 'the position's margin' if every earlier owner operation booked it correctly, so the per-operation margin/funding identities of C11 R4 (increase, reduce, reversal, partial close, withdraw) run as an auxiliary oracle and report as rule 'ledger:*'. "
+         "lifetime: over the whole life of a position (record created -> whole-position close removes it) net margin paid in + signed quote exchanged with the vAMM (swap events) - funding charged (monitor's own F) = 0 within rounding; lives with a liquidation, an operation on negative equity, a reported bad debt or a change by another account are dropped without verdict (rule R1-lifetime-cash-flow). "
          "distinct = (whole/partial, direction, sign pnl, sign funding, vault shortfall, fee config).",
-    essential=["whole-closes"],
+    essential=["whole-closes", "life:closed-lives-checked"],
     text="Payout equals the independently recomputed equity on every observed close, over all sign combinations of PnL and funding the workloads produced.",
     note="the AMM is not modelled: the exchanged quote amount is taken from the executed swap event; C17 ties quotes to execution",
 )
@@ -131,7 +132,7 @@ prop(
     level="exploration",
     technique="transfer-log oracle: exact list of fee transfers per successful operation recomputed from notional and stored ratios",
     design_ref="DESIGN.md §4 C12",
-    rule="evaluations = successful Open/Close(whole)/Deposit/Withdraw/PayFunding/Liquidate calls. Open: exactly one transfer floor(N*spread/D) to the insurance fund and one floor(N*toll/D) to the fee pool (none when 0), N=floor(margin*leverage/D), payer = trader (cw20) or engine out of attached funds (native), on increase, reduce and both reversal outcomes; "
+    rule="evaluations = successful Open/Close(whole)/Deposit/Withdraw/PayFunding/Liquidate calls. Ratios: the monitor's own record of what each vAMM was given (instantiate message, accepted UpdateConfig fields), never the vAMM's report about itself; R0 a vAMM reporting ratios other than those it was instantiated with. Open: exactly one transfer floor(N*spread/D) to the insurance fund and one floor(N*toll/D) to the fee pool (none when 0), N=floor(margin*leverage/D), payer = trader (cw20) or engine out of attached funds (native), on increase, reduce and both reversal outcomes; "
          "whole close: the same on the pre-state open notional; partial close: the same on the quote amount the engine asks the vAMM to swap (observed change of the quote reserve); deposit/withdraw/funding/liquidation: nothing to the fee pool and no fee-like transfer to the insurance fund. distinct = (operation, reply path, fee zero / rounds-to-zero / non-zero, collateral kind).",
     essential=["fees:open:fee", "fees:close:fee", "fees:no-fee-ops", "fees:open:rounds-to-zero"],
     text="Exact fee lists checked on every successful operation across toll/spread settings incl. ones rounding to zero.",
@@ -178,7 +179,7 @@ prop(
     technique="differential quote-vs-execution monitor (pre-queried InputAmount/OutputAmount vs executed swap events) + slippage-limit oracle with dry-run retry at limit 0 to isolate the failure cause",
     design_ref="DESIGN.md §4 C17",
     rule="evaluations = swaps whose quote was pre-queried (direct vAMM swaps in W-VAMM; engine opens/closes in W-ENG) and limit-carrying calls. R1 executed amount == quoted amount and the requested side moves by exactly the request; R2 (vAMM) a non-zero limit violated by the quote must fail, a satisfied one must not fail with a limit error; "
-         "R3 (engine) Open(increase/reduce) and whole Close: limit violated yet Ok, or satisfied (incl. equality) yet failing while the same call with limit 0 succeeds on the same state (dry run). distinct = (level, operation, side, limit relation =/slack/violated, outcome).",
+         "R3 (engine) Open(increase/reduce) and whole Close: limit violated yet Ok, or satisfied (incl. equality) yet failing while the same call with limit 0 succeeds on the same state (dry run); whether an OpenPosition opens / increases / reduces (limit pinned) or reverses is decided by the monitor from the pre-state (no position, zero-size record or same side = open/increase; opposite side with notional below the position's spot value = reduce), not from the path the engine took. distinct = (level, operation, side, limit relation =/slack/violated, outcome).",
     essential=["R1-open-quote-vs-execution", "R1-close-quote-vs-execution", "R3-open-limits", "R3-close-limits"],
     text="Quotes compared with execution on every single-leg swap; limits at quote-1, quote, quote+1 on both sides.",
     note="the engine masks vAMM error texts, hence the dry-run retry with limit 0",
